@@ -181,6 +181,17 @@ def predicted_size(a, op) -> int:
     return min(len(xs) * len(ys), 8 * len(cells))
 
 
+def loaded_matches_document(ctx, a, case_alloc) -> bool:
+    want = [(tuple(map(float, c["r"][:4])), {k: float(v) for k, v in c["a"].items()}, c["d"]) for c in case_alloc["cells"]]
+    got = [((ra.rect.center.x, ra.rect.center.y, ra.rect.shape.w, ra.rect.shape.h), dict(ra.alloc), ra.depth) for ra in a.allocations]
+    ctx.count("loaded_allocation_compared_with_document")
+    if want != got:
+        bad = next((w, g) for w, g in zip(want, got) if w != g) if len(want) == len(got) else (len(want), len(got))
+        ctx.violation("loaded_allocation_differs", f"the loaded allocation is not what the document ({case_alloc['form']}) says: {bad}")
+        return False
+    return True
+
+
 def apply_op(a, op):
     if op[0] == "refine":
         return a.refine(op[1], op[2])
